@@ -36,6 +36,7 @@ class Env:
         self.received: list[tuple[str, str, int]] = []  # (fnid, param, id(obj)) when identity tracking is on
         self.track_identity = False
         self.funcs: dict[str, Any] = {}
+        self.late_renames = False
 
     def err(self, tag: str) -> UserErr:
         if tag not in self.errs:
@@ -202,6 +203,16 @@ def build_node(spec: dict, gi: int, graphs: list[Any], env: Env, *, async_bodies
         else:
             func = make_function(spec, fnid, env, is_async=async_bodies)
             env.funcs[fnid] = func
+        if env.late_renames and in_ren:
+            # the node object is used first (defaults read, placed in a graph) and renamed afterwards
+            base = FunctionNode(func, name=spec["name"], output_name=_tuple_or_none(spec.get("dataOuts", [])), cache=spec.get("cache", False),
+                                emit=emits, wait_for=wait_for)
+            _ = base.defaults
+            try:
+                Graph([base], name="warmup")
+            except Exception:  # noqa: BLE001 - only a warm-up
+                pass
+            return base.with_inputs(in_ren)
         return FunctionNode(
             func,
             name=spec["name"],
